@@ -1,0 +1,48 @@
+//go:build verif
+
+package vss
+
+import (
+	"errors"
+
+	"go.dedis.ch/kyber/v4/sign/schnorr"
+)
+
+// Hooks for the runtime monitors under /verif (build tag verif): they let a
+// harness play a malicious dealer whose deals still travel through the real
+// ephemeral-DH / Schnorr / HKDF / AES-GCM path. Not compiled into normal builds.
+
+// VerifSealDealStruct seals the given Deal for verifier i exactly as
+// EncryptedDeal(i) would seal the dealer's own deal.
+func (d *Dealer) VerifSealDealStruct(i int, dl *Deal) (*EncryptedDeal, error) {
+	if i < 0 || i >= len(d.deals) {
+		return nil, errors.New("verif: index out of range")
+	}
+	old := d.deals[i]
+	d.deals[i] = dl
+	defer func() { d.deals[i] = old }()
+	return d.EncryptedDeal(i)
+}
+
+// VerifSealDeal seals an arbitrary plaintext for verifier i (same steps as EncryptedDeal).
+func (d *Dealer) VerifSealDeal(i int, plaintext []byte) (*EncryptedDeal, error) {
+	vPub, ok := findPub(d.verifiers, uint32(i))
+	if !ok {
+		return nil, errors.New("dealer: wrong index to generate encrypted deal")
+	}
+	dhSecret := d.suite.Scalar().Pick(d.suite.RandomStream())
+	dhPublic := d.suite.Point().Mul(dhSecret, nil)
+	dhPublicBuff, _ := dhPublic.MarshalBinary()
+	signature, err := schnorr.Sign(d.suite, d.long, dhPublicBuff)
+	if err != nil {
+		return nil, err
+	}
+	pre := dhExchange(d.suite, dhSecret, vPub)
+	gcm, err := newAEAD(d.suite.Hash, pre, d.hkdfContext)
+	if err != nil {
+		return nil, err
+	}
+	nonce := make([]byte, gcm.NonceSize())
+	encrypted := gcm.Seal(nil, nonce, plaintext, d.hkdfContext)
+	return &EncryptedDeal{DHKey: dhPublic, Signature: signature, Cipher: encrypted}, nil
+}
